@@ -206,10 +206,10 @@ func deleteTempFiles(directory string) error {
 }
 
 func deleteTempFilesIn(directory string) error {
-	matches, _ := filepath.Glob(filepath.Join(directory, "*."+cptvTempExt))
+	matches, _ := filepath.Glob(filepath.Join(globEscape(directory), "*."+cptvTempExt))
 	// The CPTV writer keeps the uncompressed frames in "<name>.tmp" until the
 	// recording is closed.
-	scratch, _ := filepath.Glob(filepath.Join(directory, "*."+cptvTempExt+".tmp"))
+	scratch, _ := filepath.Glob(filepath.Join(globEscape(directory), "*."+cptvTempExt+".tmp"))
 	matches = append(matches, scratch...)
 	for _, filename := range matches {
 		if err := os.Remove(filename); err != nil {
@@ -237,7 +237,7 @@ func deleteExcessRecordings(dir string) error {
 		if percentageLeft > 30 {
 			return nil
 		}
-		matches, err := filepath.Glob(path.Join(dir, "*.cptv*"))
+		matches, err := filepath.Glob(path.Join(globEscape(dir), "*.cptv*"))
 		if err != nil {
 			return err
 		}
@@ -250,4 +250,18 @@ func deleteExcessRecordings(dir string) error {
 		}
 		log.Println("deleted old recording: ", matches[0])
 	}
+}
+
+// globEscape returns dir with the characters that are special in filepath.Glob
+// patterns escaped, so that a directory name can be part of a pattern.
+func globEscape(dir string) string {
+	escaped := make([]byte, 0, len(dir))
+	for i := 0; i < len(dir); i++ {
+		switch dir[i] {
+		case '*', '?', '[', '\\':
+			escaped = append(escaped, '\\')
+		}
+		escaped = append(escaped, dir[i])
+	}
+	return string(escaped)
 }
